@@ -116,7 +116,7 @@ pub proof fn lemma_encs_push(c: Seq<u8>, chs: Seq<StructureTag>, t: StructureTag
 // ---- the reference decoder as a function (X.690 8.1 read left to right): NeedMore / Bad / Ok(bytes consumed, tree).
 // An element that overruns its fully present parent makes the parent Bad (not NeedMore).
 pub enum SRes { NeedMore, Bad, Ok(nat, T) }
-pub open spec fn sparse(b: Seq<u8>) -> SRes decreases b.len(), 0nat {
+pub open spec fn sparse(b: Seq<u8>, d: nat) -> SRes decreases b.len(), 0nat {
     match type_hdr(b) {
         Hdr::NeedMore => SRes::NeedMore,
         Hdr::Bad => SRes::Bad,
@@ -128,21 +128,22 @@ pub open spec fn sparse(b: Seq<u8>) -> SRes decreases b.len(), 0nat {
                     let content = b.subrange((n1 + n2) as int, (n1 + n2 + l) as int);
                     match s {
                         TagStructure::Primitive => SRes::Ok((n1 + n2 + l) as nat, T::P(c, id, content)),
-                        TagStructure::Constructed => match sparse_list(content) {
+                        // nesting deeper than MAX_NESTING is rejected (the parser is recursive: bounded stack use)
+                        TagStructure::Constructed => if d >= MAX_NESTING { SRes::Bad } else { match sparse_list(content, d + 1) {
                             Some(k) => SRes::Ok((n1 + n2 + l) as nat, T::C(c, id, k)),
                             None => SRes::Bad,
-                        },
+                        } },
                     }
                 },
             }
         },
     }
 }
-pub open spec fn sparse_list(c: Seq<u8>) -> Option<Seq<T>> decreases c.len(), 1nat {
+pub open spec fn sparse_list(c: Seq<u8>, d: nat) -> Option<Seq<T>> decreases c.len(), 1nat {
     if c.len() == 0 { Some(Seq::empty()) } else {
-        match sparse(c) {
+        match sparse(c, d) {
             SRes::Ok(k, t) => if 0 < k <= c.len() {
-                match sparse_list(c.subrange(k as int, c.len() as int)) { Some(r) => Some(seq![t] + r), None => None }
+                match sparse_list(c.subrange(k as int, c.len() as int), d) { Some(r) => Some(seq![t] + r), None => None }
             } else { None },
             _ => None,
         }
@@ -182,24 +183,24 @@ pub axiom fn ax_len_of_octets(n: nat, rest: Seq<u8>)
     requires n <= usize::MAX
     ensures len_octets(n).len() >= 1, len_hdr(len_octets(n) + rest) == Len::Ok(len_octets(n).len(), n as usize);
 // trees the property talks about: tag numbers up to 30, contents that fit a usize
-pub open spec fn wf_t(t: T) -> bool decreases t, 0nat {
+pub open spec fn wf_t(t: T, d: nat) -> bool decreases t, 0nat {
     match t {
         T::P(c, id, v) => id <= 30 && v.len() <= usize::MAX,
-        T::C(c, id, k) => id <= 30 && ber_ts(k, k.len()).len() <= usize::MAX && wf_ts(k, k.len()),
+        T::C(c, id, k) => id <= 30 && d < MAX_NESTING && ber_ts(k, k.len()).len() <= usize::MAX && wf_ts(k, k.len(), d + 1),
     }
 }
-pub open spec fn wf_ts(k: Seq<T>, n: nat) -> bool decreases k, n {
-    if n == 0 || n > k.len() { true } else { wf_ts(k, (n - 1) as nat) && wf_t(k[n - 1]) }
+pub open spec fn wf_ts(k: Seq<T>, n: nat, d: nat) -> bool decreases k, n {
+    if n == 0 || n > k.len() { true } else { wf_ts(k, (n - 1) as nat, d) && wf_t(k[n - 1], d) }
 }
 // the children's encodings from index i on, left to right
 pub open spec fn ber_from(k: Seq<T>, i: nat) -> Seq<u8> decreases k.len() - i {
     if i >= k.len() { Seq::empty() } else { ber_t(k[i as int]) + ber_from(k, i + 1) }
 }
-pub proof fn lemma_wf_ts_index(k: Seq<T>, n: nat, j: int)
-    requires n <= k.len(), wf_ts(k, n), 0 <= j < n
-    ensures wf_t(k[j])
+pub proof fn lemma_wf_ts_index(k: Seq<T>, n: nat, j: int, d: nat)
+    requires n <= k.len(), wf_ts(k, n, d), 0 <= j < n
+    ensures wf_t(k[j], d)
     decreases n
-{ if j < n - 1 { lemma_wf_ts_index(k, (n - 1) as nat, j); } }
+{ if j < n - 1 { lemma_wf_ts_index(k, (n - 1) as nat, j, d); } }
 pub proof fn lemma_ber_ts_from(k: Seq<T>, i: nat)
     requires i <= k.len()
     ensures ber_ts(k, k.len()) == ber_ts(k, i) + ber_from(k, i)
@@ -214,9 +215,9 @@ pub proof fn lemma_ber_ts_from(k: Seq<T>, i: nat)
         assert((ber_ts(k, i) + ber_t(k[i as int])) + ber_from(k, i + 1) =~= ber_ts(k, i) + (ber_t(k[i as int]) + ber_from(k, i + 1)));
     }
 }
-pub proof fn lemma_roundtrip(t: T, trail: Seq<u8>)
-    requires wf_t(t)
-    ensures sparse(ber_t(t) + trail) == SRes::Ok(ber_t(t).len(), t), //# C07.parse_of_encoding_is_the_identical_tree_and_leaves_trailing_bytes
+pub proof fn lemma_roundtrip(t: T, trail: Seq<u8>, d: nat)
+    requires wf_t(t, d)
+    ensures sparse(ber_t(t) + trail, d) == SRes::Ok(ber_t(t).len(), t), //# C07.parse_of_encoding_is_the_identical_tree_and_leaves_trailing_bytes
     decreases t, 1nat
 {
     let b = ber_t(t) + trail;
@@ -243,14 +244,14 @@ pub proof fn lemma_roundtrip(t: T, trail: Seq<u8>)
             assert(ber_t(t).len() == 1 + lo.len() + body.len());
             lemma_ber_ts_from(k, 0);
             assert(ber_ts(k, 0) + ber_from(k, 0) =~= ber_from(k, 0));
-            lemma_roundtrip_list(k, 0);
+            lemma_roundtrip_list(k, 0, d + 1);
             assert(k.subrange(0, k.len() as int) =~= k);
         }
     }
 }
-pub proof fn lemma_roundtrip_list(k: Seq<T>, i: nat)
-    requires i <= k.len(), wf_ts(k, k.len())
-    ensures sparse_list(ber_from(k, i)) == Some(k.subrange(i as int, k.len() as int))
+pub proof fn lemma_roundtrip_list(k: Seq<T>, i: nat, d: nat)
+    requires i <= k.len(), wf_ts(k, k.len(), d)
+    ensures sparse_list(ber_from(k, i), d) == Some(k.subrange(i as int, k.len() as int))
     decreases k, k.len() - i
 {
     if i == k.len() {
@@ -258,10 +259,10 @@ pub proof fn lemma_roundtrip_list(k: Seq<T>, i: nat)
         assert(k.subrange(i as int, k.len() as int) =~= Seq::<T>::empty());
     } else {
         let x = k[i as int];
-        lemma_wf_ts_index(k, k.len(), i as int);
+        lemma_wf_ts_index(k, k.len(), i as int, d);
         let rest = ber_from(k, i + 1);
-        lemma_roundtrip(x, rest);
-        lemma_roundtrip_list(k, i + 1);
+        lemma_roundtrip(x, rest, d);
+        lemma_roundtrip_list(k, i + 1, d);
         let c = ber_from(k, i);
         assert(c == ber_t(x) + rest);
         // a tree's encoding is never empty (identifier octet)
@@ -276,18 +277,18 @@ pub proof fn lemma_roundtrip_list(k: Seq<T>, i: nat)
 //@canary-begin
 // must FAIL: if `false` followed from the leaf axioms (contradictory axioms), every proof in this unit would be vacuous
 pub proof fn leaf_axioms_consistent__canary(c: TagClass, s: TagStructure, id: u64, rest: Seq<u8>, n: nat, t: T, trail: Seq<u8>)
-    requires id <= 30, n <= usize::MAX, wf_t(t)
+    requires id <= 30, n <= usize::MAX, wf_t(t, 0)
     ensures false
 {
     broadcast use ax_type_hdr, ax_len_hdr;
     ax_type_of_ident(c, s, id, rest); ax_len_of_octets(n, rest); ax_type_of_ident(c, s, id, Seq::empty()); ax_len_of_octets(n, Seq::empty());
     ax_type_local(ident(c, s, id) + rest, 1);
     ax_len_local(len_octets(n) + rest, len_octets(n).len() as int);
-    lemma_roundtrip(t, trail);
+    lemma_roundtrip(t, trail, 0);
 }
 //@canary-end
 
-//@lift name=parse_tag file=lber/src/parse.rs fn=parse_tag
+//@lift name=parse_tag_nested file=lber/src/parse.rs fn=parse_tag_nested
 //@ ret r
 //@ rebind i input
 //@ insert entry
@@ -304,17 +305,17 @@ pub proof fn leaf_axioms_consistent__canary(c: TagClass, s: TagStructure, id: u6
             let ghost c0 = content@;
             proof {
                 assert(c0 =~= i0.subrange((n1 + n2) as int, (n1 + n2 + len) as int));
-                assert(st_trees(tv@, tv@.len()) + sparse_list(c0)->0 =~= sparse_list(c0)->0);
+                assert(st_trees(tv@, tv@.len()) + sparse_list(c0, (depth + 1) as nat)->0 =~= sparse_list(c0, (depth + 1) as nat)->0);
             }
 //@ loop 1
                 invariant content@.len() <= len, len < i0.len(), c0.len() == len, i0 == input@,
                     need(i0) == Need::Bytes((n1 + n2 + len) as nat), i0.len() >= n1 + n2 + len,
                     content@ == c0.subrange(c0.len() - content@.len(), c0.len() as int),
                     encs_of(c0.subrange(0, c0.len() - content@.len()), tv@, tv@.len()), //# inv.children_so_far_are_encoded_by_the_consumed_prefix
-                    sparse_list(c0) == (match sparse_list(content@) { Some(r) => Some(st_trees(tv@, tv@.len()) + r), None => None::<Seq<T>> }), //# inv.reference_decoder_agrees_on_the_children_so_far
-                    sparse(i0) == (match sparse_list(c0) { Some(k) => SRes::Ok((n1 + n2 + len) as nat, T::C(class, id, k)), None => SRes::Bad }),
+                    sparse_list(c0, (depth + 1) as nat) == (match sparse_list(content@, (depth + 1) as nat) { Some(r) => Some(st_trees(tv@, tv@.len()) + r), None => None::<Seq<T>> }), //# inv.reference_decoder_agrees_on_the_children_so_far
+                    depth < MAX_NESTING, sparse(i0, depth as nat) == (match sparse_list(c0, (depth + 1) as nat) { Some(k) => SRes::Ok((n1 + n2 + len) as nat, T::C(class, id, k)), None => SRes::Bad }),
                 decreases content@.len(), //# C11.termination_of_child_loop
-//@ insert before "parse_tag(content)"
+//@ insert before "parse_tag_nested(content, depth + 1)"
                 let ghost p = c0.len() - content@.len();
                 let ghost tv_old = tv@;
                 let ghost content_old = content@;
@@ -330,7 +331,7 @@ pub proof fn leaf_axioms_consistent__canary(c: TagClass, s: TagStructure, id: u6
                     assert(content@ =~= content_old.subrange(k, content_old.len() as int));
                     lemma_st_trees_push(tv_old, tv@[tv@.len() - 1], tv_old.len());
                     assert(st_trees(tv@, tv@.len()) =~= st_trees(tv_old, tv_old.len()).push(st_tree(tv@[tv@.len() - 1])));
-                    match sparse_list(content@) {
+                    match sparse_list(content@, (depth + 1) as nat) {
                         Some(r) => { assert(st_trees(tv_old, tv_old.len()) + (seq![st_tree(tv@[tv@.len() - 1])] + r) =~= st_trees(tv@, tv@.len()) + r); }
                         None => {}
                     }
@@ -354,6 +355,7 @@ pub proof fn leaf_axioms_consistent__canary(c: TagClass, s: TagStructure, id: u6
         assert(i@ =~= i0.subrange(n, i0.len() as int));
     }
 //@ spec
+    requires depth <= MAX_NESTING, //# C11.recursion_depth_never_exceeds_MAX_NESTING
     ensures
         // soundness against the reference decoder; the rest is a suffix, nothing past the TLV is touched
         r matches Ok((rest, t)) ==> rest@.len() < input@.len()
@@ -363,16 +365,45 @@ pub proof fn leaf_axioms_consistent__canary(c: TagClass, s: TagStructure, id: u6
         r matches Ok((rest, t)) ==> need(input@) == Need::Bytes((input@.len() - rest@.len()) as nat), //# C06.exactly_the_announced_bytes_are_consumed
         // need more <=> header or announced contents not yet there
         (need(input@) is Unknown) ==> (r matches Err(e) && e is Incomplete), //# C06.incomplete_header_is_need_more
-        (need(input@) matches Need::Bytes(n) && input@.len() < n) ==> (r matches Err(e) && e is Incomplete), //# C06.missing_contents_is_need_more
+        depth < MAX_NESTING ==> ((need(input@) matches Need::Bytes(n) && input@.len() < n) ==> (r matches Err(e) && e is Incomplete)), //# C06.missing_contents_is_need_more
         (need(input@) matches Need::Bytes(n) && input@.len() >= n) ==> !(r matches Err(nom::Err::Incomplete(_))), //# C06+C11.complete_frame_is_never_answered_incomplete
         (need(input@) is Bad) ==> (r matches Err(e) && !(e is Incomplete)), //# C11.bad_header_is_an_error
         // full functional correctness against the reference decoder (soundness AND completeness)
-        match sparse(input@) {
+        match sparse(input@, depth as nat) {
             SRes::NeedMore => r matches Err(e) && e is Incomplete,
             SRes::Bad => r matches Err(e) && !(e is Incomplete),
             SRes::Ok(k, t) => r matches Ok(p) && st_tree(p.1) == t && k <= input@.len() && p.0@ == input@.subrange(k as int, input@.len() as int),
         }, //# C07.parser_computes_the_reference_decoder
     decreases input@.len(), //# C11.termination_of_recursion
+//@end
+
+//@const file=lber/src/parse.rs name=MAX_NESTING
+// the nesting bound is a real bound and leaves room for every LDAP message (envelope, operation, controls ~ 6 levels)
+pub proof fn max_nesting_is_sane() ensures 16 <= MAX_NESTING <= 1000 { } //# C11.nesting_limit_is_finite_and_generous
+
+//@lift name=parse_tag file=lber/src/parse.rs fn=parse_tag
+//@ ret r
+//@ insert entry
+    broadcast use ax_type_hdr, ax_len_hdr;
+//@ spec
+    ensures
+        // soundness against the reference decoder; the rest is a suffix, nothing past the TLV is touched
+        r matches Ok((rest, t)) ==> rest@.len() < i@.len()
+            && rest@ == i@.subrange(i@.len() - rest@.len(), i@.len() as int)
+            && enc_of(i@.subrange(0, i@.len() - rest@.len()), t), //# C07.parse_result_is_a_definite_length_encoding_of_the_tree
+        // framing: exactly header + announced length is consumed
+        r matches Ok((rest, t)) ==> need(i@) == Need::Bytes((i@.len() - rest@.len()) as nat), //# C06.exactly_the_announced_bytes_are_consumed
+        // need more <=> header or announced contents not yet there
+        (need(i@) is Unknown) ==> (r matches Err(e) && e is Incomplete), //# C06.incomplete_header_is_need_more
+        (need(i@) matches Need::Bytes(n) && i@.len() < n) ==> (r matches Err(e) && e is Incomplete), //# C06.missing_contents_is_need_more
+        (need(i@) matches Need::Bytes(n) && i@.len() >= n) ==> !(r matches Err(nom::Err::Incomplete(_))), //# C06+C11.complete_frame_is_never_answered_incomplete
+        (need(i@) is Bad) ==> (r matches Err(e) && !(e is Incomplete)), //# C11.bad_header_is_an_error
+        // full functional correctness against the reference decoder (soundness AND completeness)
+        match sparse(i@, 0nat) {
+            SRes::NeedMore => r matches Err(e) && e is Incomplete,
+            SRes::Bad => r matches Err(e) && !(e is Incomplete),
+            SRes::Ok(k, t) => r matches Ok(p) && st_tree(p.1) == t && k <= i@.len() && p.0@ == i@.subrange(k as int, i@.len() as int),
+        }, //# C07.parser_computes_the_reference_decoder
 //@end
 
 pub struct Parser;
@@ -388,7 +419,7 @@ impl Parser {
             && enc_of(input@.subrange(0, input@.len() - rest@.len()), t)
             && need(input@) == Need::Bytes((input@.len() - rest@.len()) as nat), //# C06+C07.frame_cut_exactly
         (need(input@) matches Need::Bytes(n) && input@.len() >= n) ==> !(r matches Err(nom::Err::Incomplete(_))), //# C06+C11.complete_frame_is_never_answered_incomplete
-        input@.len() > 0 ==> (match sparse(input@) {
+        input@.len() > 0 ==> (match sparse(input@, 0) {
             SRes::NeedMore => r matches Err(e) && e is Incomplete,
             SRes::Bad => r matches Err(e) && !(e is Incomplete),
             SRes::Ok(k, t) => r matches Ok(p) && st_tree(p.1) == t && k <= input@.len() && p.0@ == input@.subrange(k as int, input@.len() as int),
